@@ -256,6 +256,8 @@ def run(ctx):
         ('C02-globstar-div-newline', "globmatch('/a\\n', '/**/?', GLOBSTAR) is True (the `$` in the globstar divider matches before a final line feed)",
          lambda: Gm.globmatch('/a\n', '/**/?', flags=Gm.GLOBSTAR | Gm.FORCEUNIX) is True),
     ])
+    from props import fringe
+    fringe.empty_pattern(ctx)
     return ctx.finish(RULE)
 
 
